@@ -166,9 +166,10 @@ func Start(w *World, snap Snapshot) *Env {
 				close(ch)
 			}
 		},
-		OnTooLong:    func() { e.record(Event{Kind: "L"}, Snapshot{}) },
-		Storage:      e.Store,
-		AccessHasher: hasher{w},
+		OnTooLong:        func() { e.record(Event{Kind: "L"}, Snapshot{}) },
+		Storage:          e.Store,
+		AccessHasher:     hasher{w},
+		UserAccessHasher: userHasher{w},
 	})
 	ctx, cancel := context.WithCancel(context.Background())
 	e.cancel = cancel
